@@ -53,6 +53,7 @@ func and(ps ...func(*ssa.Call) bool) func(*ssa.Call) bool {
 }
 
 func runC21(c *core.Ctx) {
+	checkBlacklistIdNotNarrowed(c, "C21.blacklist-id-64-bit")
 	checkRegisteredOnlyAfterQuorum(c)
 	checkQuitUnregisters(c, "C21.quit-unregisters")
 	fn := c.Fn(pkCCM, "ImportExTransfer")
@@ -246,6 +247,7 @@ func inLoop(in ssa.Instruction) bool {
 }
 
 func runC22(c *core.Ctx) {
+	checkCrossStatesWrittenOnReplay(c, "C22.leaf-written-on-replay")
 	// a rejected import leaves nothing behind only because the per-transaction cache is emptied before the next
 	// transaction of the block runs (C15's rule, a necessary condition of "failed imports commit nothing")
 	checkResetBeforeTx(c, "C22.failed-import-leaves-nothing")
